@@ -1,6 +1,6 @@
 (* C15 - failure responses cut short after the status are returned, never mis-parsed. *)
 From Coq Require Import NArith List String Bool.
-From ZB Require Import Base.Bytes Wire.Wty Wire.WtyProofs Cmd.Schema Cmd.Command Cmd.CommandProofs gen.GenSchemas.
+From ZB Require Import Base.Bytes Wire.Wty Wire.WtyProofs Cmd.Schema Cmd.Command Cmd.CommandProofs Cmd.FromBody gen.GenSchemas.
 Import ListNotations.
 Open Scope list_scope.
 Open Scope N_scope.
@@ -39,15 +39,63 @@ Proof. exact surplus_is_rejected. Qed.
 Print Assumptions C15_surplus_rejected.
 
 (* every response schema of the tree starts with TSN, StatusCat, StatusCode (one byte each) and has no other StatusCode *)
-Definition rsp_prefix_ok (c : cmd) : bool :=
-  match c_params c with
-  | p1 :: p2 :: p3 :: rest =>
-      (match p_ty p1, p_ty p2, p_ty p3 with TInt 1, TInt 1, TInt 1 => true | _, _, _ => false end) &&
-      negb (is_status_code p1) && negb (is_status_code p2) && is_status_code p3 && no_status rest &&
-      negb (p_opt p1) && negb (p_opt p2) && negb (p_opt p3)
-  | _ => false
-  end.
+(* (rsp_prefix_ok: Cmd/FromBody.v) *)
 Theorem C15_all_responses_have_status_prefix :
   forallb (fun c => implb (c_ctl c =? 1) (rsp_prefix_ok c)) schemas = true.
 Proof. vm_compute. reflexivity. Qed.
 Print Assumptions C15_all_responses_have_status_prefix.
+
+(* ---- the same, about from_frame as a whole (`from_body`: the loop entered the way the code enters it - "is a
+   response" = the control type of the class, no status parsed yet) and for EVERY response class of the tree *)
+
+(* a response of the tree with a non-zero status code, cut at ANY point after the three status bytes: returned *)
+Theorem C15_failure_response_of_the_tree_returned : forall c rest_a t cat n k,
+  In c schemas -> c_ctl c = 1 -> n <> 0 ->
+  opt_prefix_ok (skipn 3 (c_params c)) rest_a false = true -> values_ok (skipn 3 (c_params c)) rest_a = true ->
+  from_body c (t :: cat :: n :: firstn k (enc_params (skipn 3 (c_params c)) rest_a)) <> Reject.
+Proof.
+  intros c a t cat n k Hin Hctl Hn Ho Hv.
+  apply from_body_failure_response_returned; try assumption.
+  - pose proof (proj1 (forallb_forall _ _) C15_all_responses_have_status_prefix c Hin) as H.
+    cbv beta in H. rewrite Hctl in H. exact H.
+  - pose proof (proj1 (forallb_forall _ _) all_decoded_schemas_ok c Hin) as H.
+    cbv beta in H. unfold decodable in H. rewrite Hctl in H. exact H.
+Qed.
+Print Assumptions C15_failure_response_of_the_tree_returned.
+
+(* ... with status code zero, cut inside or right before a required parameter: rejected *)
+Theorem C15_success_response_truncated_rejected : forall c ps1 a1 p ps2 v q s t cat,
+  c_ctl c = 1 -> rsp_prefix_ok c = true ->
+  skipn 3 (c_params c) = ps1 ++ p :: ps2 -> no_status ps1 = true ->
+  all_given_required ps1 a1 = true ->
+  p_opt p = false -> selfdelim (p_ty p) = true -> valid (p_ty p) v = true -> enc (p_ty p) v = q ++ s -> s <> [] ->
+  from_body c (t :: cat :: 0 :: enc_params ps1 a1 ++ q) = Reject.
+Proof. exact from_body_success_response_truncated_rejected. Qed.
+Print Assumptions C15_success_response_truncated_rejected.
+
+(* an indication (anything that is not a response) never gets the benefit of a failure status *)
+Theorem C15_indication_truncated_rejected : forall c ps1 a1 p ps2 v q s,
+  c_ctl c <> 1 -> c_params c = ps1 ++ p :: ps2 -> all_given_required ps1 a1 = true ->
+  p_opt p = false -> selfdelim (p_ty p) = true -> valid (p_ty p) v = true -> enc (p_ty p) v = q ++ s -> s <> [] ->
+  from_body c (enc_params ps1 a1 ++ q) = Reject.
+Proof. exact from_body_indication_truncated_rejected. Qed.
+Print Assumptions C15_indication_truncated_rejected.
+
+(* a response cut inside its three status bytes: rejected *)
+Theorem C15_cut_inside_status_rejected : forall c d,
+  c_ctl c = 1 -> rsp_prefix_ok c = true -> (List.length d < 3)%nat -> from_body c d = Reject.
+Proof. exact from_body_cut_inside_status_rejected. Qed.
+Print Assumptions C15_cut_inside_status_rejected.
+
+(* non-vacuity: a response class of the tree with a required parameter behind the status; failure status and nothing
+   else -> partial command with exactly the three status fields; status zero -> rejected; cut inside the status -> rejected *)
+Definition has_tail (c : cmd) : bool :=
+  (c_ctl c =? 1) && match skipn 3 (c_params c) with p :: _ => negb (p_opt p) && selfdelim (p_ty p) | [] => false end.
+Example C15_from_body_instance : exists c, In c schemas /\ has_tail c = true /\
+  from_body c [7; 1; 5] = Partial (Some (VInt 7) :: Some (VInt 1) :: Some (VInt 5) :: nones (skipn 3 (c_params c))) /\
+  from_body c [7; 1; 0] = Reject /\ from_body c [7; 1] = Reject.
+Proof.
+  destruct (find has_tail schemas) as [c|] eqn:E; [|vm_compute in E; discriminate].
+  exists c. destruct (find_some _ _ E) as [Hin Ht]. split; [exact Hin|]. split; [exact Ht|].
+  clear Hin Ht. vm_compute in E. inversion E. vm_compute. auto.
+Qed.
